@@ -180,7 +180,25 @@ def dec_bytes(ty, n):
     return f
 
 
-DECODERS = {"time": dec_time, "crl_order": dec_crl_order, "crl_ku": dec_crl_ku, "cidr4": dec_cidr4, "cidr6": dec_cidr6, "key_usage9": dec_ku9,
+def dec_csr_serial(vals):
+    return {"kind": "csr_refusal", "input": {"serial_hex": "".join("%02x" % b for b in Rd(vals).bytes(2))}}
+
+
+def dec_csr_is_ca(vals):
+    r = Rd(vals)
+    k, n = r.take(1) % 3, r.take(1)
+    return {"kind": "csr_refusal", "input": {"is_ca": ["explicit", "ca", "ca:%d" % n][k]}}
+
+
+def static(inp):
+    f = lambda vals: {"kind": "csr_refusal", "input": inp}
+    f.static = True   # the harness has no symbolic input: the replay input is the harness's fixed shape
+    return f
+
+
+DECODERS = {"csr_serial": dec_csr_serial, "csr_is_ca": dec_csr_is_ca, "csr_none": static({}), "csr_nc": static({"nc": {}}),
+            "csr_crldp": static({"crldp": [[]]}), "csr_aki": static({"aki": True}),
+            "time": dec_time, "crl_order": dec_crl_order, "crl_ku": dec_crl_ku, "cidr4": dec_cidr4, "cidr6": dec_cidr6, "key_usage9": dec_ku9,
             "str_printable": dec_str("printable"), "str_ia5": dec_str("ia5"), "str_teletex": dec_str("teletex"), "str_bmp": dec_str("bmp"),
             "str_universal": dec_str("universal"), "bytes_bmp3": dec_bytes("bmp", 3), "bytes_bmp4": dec_bytes("bmp", 4), "bytes_universal": dec_bytes("universal", 4)}
 
